@@ -409,6 +409,77 @@ Definition dns_decode_question (p : slice) : res dns_question :=
    '(labs, index) <- dns_labels (S (len p)) p 12 12 [] ;;
    (* after the loop decodeName returns index+1 (skips the terminating zero) *)
    let endq := S index in
+   (* repo commit 3f1ca67: type and class must be inside the message *)
+   if Nat.ltb (len p) (endq + 4) then Err EParseFrame else
    t <- be16_at p endq ;;
    c <- be16_at p (endq + 2) ;;
    Ok {| q_labels := labs; q_type := t; q_class := c; q_end := (endq + 4)%nat |})%res.
+
+(* ================================================================ *)
+(* "decode_lib": the library view of a whole header as one record:
+   IsValid() == nil, then every getter. *)
+Record ip4_view := { iv_version : N; iv_ihl : nat; iv_tos : N; iv_totlen : nat; iv_id : N; iv_flags : N;
+                     iv_ttl : N; iv_proto : N; iv_src : bytes; iv_dst : bytes; iv_payload : bytes }.
+Definition ip4_decode_lib (p : slice) : res ip4_view :=
+  (ok <- ip4_is_valid p ;;
+   if negb ok then Err EFrameLen else
+   v <- ip4_version p ;; ihl <- ip4_ihl p ;; tos <- ip4_tos p ;; tl <- ip4_totlen p ;; id <- ip4_id p ;;
+   fl <- ip4_flags p ;; ttl <- ip4_ttl p ;; pr <- ip4_protocol p ;; s <- ip4_src p ;; d <- ip4_dst p ;;
+   pl <- ip4_payload p ;;
+   Ok {| iv_version := v; iv_ihl := ihl; iv_tos := tos; iv_totlen := tl; iv_id := id; iv_flags := fl;
+         iv_ttl := ttl; iv_proto := pr; iv_src := s; iv_dst := d; iv_payload := view pl |})%res.
+
+Record udp_view := { uv_sport : N; uv_dport : N; uv_len : N; uv_cksum : N; uv_payload : bytes }.
+Definition udp_decode_lib (p : slice) : res udp_view :=
+  (if negb (udp_is_valid p) then Err EFrameLen else
+   s <- udp_srcport p ;; d <- udp_dstport p ;; l <- udp_len p ;; c <- udp_checksum p ;; pl <- udp_payload p ;;
+   Ok {| uv_sport := s; uv_dport := d; uv_len := l; uv_cksum := c; uv_payload := view pl |})%res.
+
+Record ip6_view := { v6_version : N; v6_plen : N; v6_next : N; v6_hop : N; v6_src : bytes; v6_dst : bytes;
+                     v6_payload : bytes }.
+Definition ip6_decode_lib (p : slice) : res ip6_view :=
+  (ok <- ip6_is_valid p ;;
+   if negb ok then Err EFrameLen else
+   v <- ip6_version p ;; pl <- ip6_payloadlen p ;; nh <- ip6_nextheader p ;; hop <- ip6_hoplimit p ;;
+   s <- ip6_src p ;; d <- ip6_dst p ;; w <- ip6_payload p ;;
+   Ok {| v6_version := v; v6_plen := pl; v6_next := nh; v6_hop := hop; v6_src := s; v6_dst := d;
+         v6_payload := view w |})%res.
+
+Record arp_view := { av_htype : N; av_proto : N; av_hlen : N; av_plen : N; av_op : N;
+                     av_smac : bytes; av_sip : bytes; av_dmac : bytes; av_dip : bytes }.
+Definition arp_decode_lib (p : slice) : res arp_view :=
+  (ok <- arp_is_valid p ;;
+   if negb ok then Err EFrameLen else
+   ht <- arp_htype p ;; pr <- arp_proto p ;; hl <- arp_hlen p ;; pl <- arp_plen p ;; op <- arp_op p ;;
+   sm <- arp_srcmac p ;; si <- arp_srcip p ;; dm <- arp_dstmac p ;; di <- arp_dstip p ;;
+   Ok {| av_htype := ht; av_proto := pr; av_hlen := hl; av_plen := pl; av_op := op;
+         av_smac := sm; av_sip := si; av_dmac := dm; av_dip := di |})%res.
+
+Record echo_view := { ev_type : N; ev_code : N; ev_cksum : N; ev_id : N; ev_seq : N; ev_data : bytes }.
+Definition echo_decode_lib (p : slice) : res echo_view :=
+  (if negb (echo_is_valid p) then Err EFrameLen else
+   t <- icmp_type p ;; c <- icmp_code p ;; k <- icmp_checksum p ;; i <- echo_id p ;; s <- echo_seq p ;;
+   d <- echo_data p ;;
+   Ok {| ev_type := t; ev_code := c; ev_cksum := k; ev_id := i; ev_seq := s; ev_data := view d |})%res.
+
+Record na_view := { nv_type : N; nv_code : N; nv_router : bool; nv_solicited : bool; nv_override : bool;
+                    nv_target : bytes; nv_lla : option bytes }.
+Definition na_decode_lib (p : slice) : res na_view :=
+  (if negb (nd_is_valid p) then Err EFrameLen else
+   t <- icmp_type p ;; c <- icmp_code p ;; r <- na_router p ;; s <- na_solicited p ;; o <- na_override p ;;
+   tg <- nd_target p ;; l <- na_target_lla p ;;
+   Ok {| nv_type := t; nv_code := c; nv_router := r; nv_solicited := s; nv_override := o;
+         nv_target := tg; nv_lla := l |})%res.
+
+Record ns_view := { sv_type : N; sv_code : N; sv_target : bytes; sv_lla : option bytes }.
+Definition ns_decode_lib (p : slice) : res ns_view :=
+  (if negb (nd_is_valid p) then Err EFrameLen else
+   t <- icmp_type p ;; c <- icmp_code p ;; tg <- nd_target p ;; l <- ns_source_lla p ;;
+   Ok {| sv_type := t; sv_code := c; sv_target := tg; sv_lla := l |})%res.
+
+Record dns_view := { dv_id : N; dv_flags : N; dv_qd : N; dv_an : N; dv_ns : N; dv_ar : N;
+                     dv_question : dns_question }.
+Definition dns_decode_lib (p : slice) : res dns_view :=
+  (i <- dns_tranid p ;; f <- dns_flags p ;; qd <- dns_qdcount p ;; an <- dns_ancount p ;; ns <- dns_nscount p ;;
+   ar <- dns_arcount p ;; q <- dns_decode_question p ;;
+   Ok {| dv_id := i; dv_flags := f; dv_qd := qd; dv_an := an; dv_ns := ns; dv_ar := ar; dv_question := q |})%res.
